@@ -140,4 +140,66 @@ theorem vef_complete_16 (pal px : List Nat) (rows : List (List Nat × List Nat))
   rw [List.getD_eq_getElem?_getD, List.getElem?_eq_getElem (by omega)]
   simp
 
+/-- PIX: every even side, 2h × 2h grey samples -/
+theorem pix_complete (img : Nat → Nat → Nat) (h : Nat) (himg : ∀ r c, img r c < 16)
+    (hsq : Nat.sqrt ((2 * h) * h * 2) = 2 * h) :
+    ∃ payload, pix (C16.encPix img h 0 (2 * h)) = .ok (ppmHeader "P5" (2 * h) (2 * h) ++ payload)
+      ∧ payload.length = (2 * h) * (2 * h) :=
+  ⟨_, C16.pix_roundtrip img h himg hsq, by simp [C16.greyImage]⟩
+
+/-- VEF 640x200x4 and 320x200x4 (squashed): every pixel a palette entry, width × 200 of them -/
+theorem vef_complete_4 (t : Nat) (pal px : List Nat) (rows : List (List Nat × List Nat))
+    (ht : t = 1 ∨ t = 3) (hpal : pal.length = 16)
+    (hpx : px.length = if t = 1 then 128000 else 64000) (hlt : ∀ p ∈ px, p < 4)
+    (hn : rows.length = 400) (hrows : C17.RowsOK (if t = 1 then 80 else 40) rows)
+    (himg : (rows.map (·.1)).flatten = packQuad px) :
+    ∃ out, vef (128 :: t :: (pal ++ C17.encRecs rows)) = .ok out ∧ out.height = 200
+      ∧ out.bitmap.length = out.width * 200 ∧ ∀ v ∈ out.bitmap, v ∈ pal := by
+  refine ⟨_, C17.vef_squashed_transparent_4 t pal px rows ht hpal hpx hlt hn hrows himg, rfl, ?_, ?_⟩
+  · rcases ht with rfl | rfl <;> simp [hpx]
+  · intro v hv
+    simp only [List.mem_map] at hv
+    obtain ⟨p, hp, rfl⟩ := hv
+    have := hlt p hp
+    rw [List.getD_eq_getElem?_getD, List.getElem?_eq_getElem (by omega)]
+    simp
+
+/-- CM3 with raw lines, one or two pages of 192 lines: 320 × 192·pages -/
+theorem cm3_raw_complete (typ : Nat) (pal anim pat : List Nat) (pages : List (List (Nat × List Nat)))
+    (hpal : pal.length = 16) (hanim : anim.length = 12)
+    (hpat : pat.length = if getbit typ 0 ≠ 0 then 0 else 243)
+    (hpages : pages.length = getbit typ 7 + 1)
+    (h192 : ∀ rows ∈ pages, rows.length = 192)
+    (hrows : ∀ rows ∈ pages, ∀ r ∈ rows, 128 ≤ r.1 ∧ RowOK r.2) :
+    ∃ payload, cm3 (typ :: (pal ++ (anim ++ (pat ++ encRawPages pages))))
+      = .ok (ppmHeader "P6" 320 (pages.length * 192) ++ payload)
+      ∧ payload.length = 3 * 320 * (pages.length * 192) := by
+  refine ⟨_, C16.cm3_raw_roundtrip typ pal anim pat pages hpal hanim hpat hpages h192 hrows, ?_⟩
+  rw [render_length]
+  have hrowsLen : ∀ rows : List (Nat × List Nat), (∀ r ∈ rows, 128 ≤ r.1 ∧ RowOK r.2) →
+      (rowsPixels rows).length = 320 * rows.length := by
+    intro rows
+    induction rows with
+    | nil => intro _; rfl
+    | cons r rs ih =>
+        intro h
+        have h1 := (h r (by simp)).2.1
+        have := ih (fun x hx => h x (by simp [hx]))
+        simp only [rowsPixels, List.map_cons, List.flatten_cons, List.length_append, List.length_cons] at this ⊢
+        rw [h1, this]; omega
+  have hpagesLen : ∀ ps : List (List (Nat × List Nat)), (∀ rows ∈ ps, rows.length = 192) →
+      (∀ rows ∈ ps, ∀ r ∈ rows, 128 ≤ r.1 ∧ RowOK r.2) → (pagesPixels ps).length = 320 * (ps.length * 192) := by
+    intro ps
+    induction ps with
+    | nil => intro _ _; rfl
+    | cons q qs ih =>
+        intro ha hb
+        have h1 := hrowsLen q (hb q (by simp))
+        have h2 := ha q (by simp)
+        have := ih (fun x hx => ha x (by simp [hx])) (fun x hx => hb x (by simp [hx]))
+        simp only [pagesPixels, List.map_cons, List.flatten_cons, List.length_append, List.length_cons] at this ⊢
+        rw [h1, h2, this]; omega
+  rw [hpagesLen pages h192 hrows]
+  omega
+
 end CocoVerif.Props.C18
